@@ -156,6 +156,10 @@ def gen_case(rng, focus, big=False):
         case['no_model'] = case['may_raise'] = True
         for run in runs:
             run['outcomes'][rng.randrange(n)] = 'poison:%d' % rng.randrange(4)
+    if focus == 'C03' and rng.random() < 0.05:
+        case['no_model'] = True
+        for run in runs:
+            run['outcomes'][rng.randrange(n)] = 'roown:%d' % rng.randrange(2)
     if rng.random() < 0.12:
         case['falsy'] = [t for t in range(n) if rng.random() < 0.5]     # task objects that are falsy
     if nruns > 1 and rng.random() < 0.4:
@@ -197,20 +201,22 @@ CORPUS = [
     {'n': 3, 'hard': [[], [0], [1]], 'soft': [[], [], []], 'workers': 2,
      'runs': [{'outcomes': ['done:12', 'done:28', 'done:9'], 'strategy': 'uniform', 'seed': 42},
               {'outcomes': ['done:12', 'done:28', 'done:9'], 'lost': [1], 'strategy': 'uniform', 'seed': 43}]},
-    {'n': 3, 'hard': [[], [0], []], 'soft': [[], [], [0]], 'workers': 2,
-     'runs': [{'outcomes': ['badupdate:12', 'done', 'done'], 'strategy': 'uniform', 'seed': 44}]},
-    {'n': 2, 'hard': [[], []], 'soft': [[], [0]], 'workers': 1,
-     'runs': [{'outcomes': ['badupdate:13', 'done'], 'strategy': 'uniform', 'seed': 45}]},
+    {'n': 3, 'hard': [[], [0], []], 'soft': [[], [], [0]], 'workers': 2, 'no_model': True, 'only': ['C03'],
+     'runs': [{'outcomes': ['roown:0', 'done', 'done'], 'strategy': 'uniform', 'seed': 44}]},
+    {'n': 2, 'hard': [[], []], 'soft': [[], [0]], 'workers': 1, 'no_model': True, 'only': ['C03'],
+     'runs': [{'outcomes': ['roown:1', 'done'], 'strategy': 'uniform', 'seed': 45}]},
+    {'n': 1, 'hard': [[]], 'soft': [[]], 'workers': 1, 'no_model': True, 'only': ['C03'],
+     'runs': [{'outcomes': ['roown:0'], 'strategy': 'uniform', 'seed': 50}]},
     {'n': 3, 'hard': [[], [0], [0]], 'soft': [[], [], []], 'workers': 3, 'falsy': [0, 2],
      'runs': [{'outcomes': ['done', 'done', 'done'], 'strategy': 'uniform', 'seed': 46}]},
     # C03: the master cannot read a status (initial environment; update of another task): it may raise
     # (oracle only), but schedule() comes back and its workers are gone
-    {'n': 3, 'hard': [[], [], [0]], 'soft': [[], [], []], 'workers': 2, 'no_model': True, 'may_raise': True,
+    {'n': 3, 'hard': [[], [], [0]], 'soft': [[], [], []], 'workers': 2, 'no_model': True, 'may_raise': True, 'only': ['C03'],
      'clock0': 5, 'started0': [1, 1, 1], 'init': [None, None, ['JUNK', 1, 1, 2]],
      'runs': [{'outcomes': ['done', 'done', 'done'], 'strategy': 'master_first', 'seed': 47}]},
-    {'n': 3, 'hard': [[], [0], []], 'soft': [[], [], []], 'workers': 2, 'no_model': True, 'may_raise': True,
+    {'n': 3, 'hard': [[], [0], []], 'soft': [[], [], []], 'workers': 2, 'no_model': True, 'may_raise': True, 'only': ['C03'],
      'runs': [{'outcomes': ['poison:0', 'done', 'done'], 'strategy': 'master_last', 'seed': 48}]},
-    {'n': 4, 'hard': [[], [0], [], []], 'soft': [[], [], [], [2]], 'workers': 3, 'no_model': True, 'may_raise': True,
+    {'n': 4, 'hard': [[], [0], [], []], 'soft': [[], [], [], [2]], 'workers': 3, 'no_model': True, 'may_raise': True, 'only': ['C03'],
      'runs': [{'outcomes': ['poison:1', 'done', 'done', 'done'], 'strategy': 'uniform', 'seed': 49}]},
     # C03: cyclic graph; stale statuses in the initial environment
     {'n': 2, 'hard': [[1], [0]], 'soft': [[], []], 'workers': 2,
@@ -547,7 +553,7 @@ def run(ctx, focus):
                 'task with dependencies started (or cyclic graph); distinct by (case, schedule)')
     quick = ctx.tier == 'quick'
     ncases = {'C01': 220, 'C02': 220, 'C03': 220, 'C04': 140}[focus] if quick else 4000
-    cases = [dict(c) for c in CORPUS]
+    cases = [dict(c) for c in CORPUS if focus in c.get('only', [focus])]
     for i in range(ncases):
         cases.append(gen_case(ctx.rng, focus, big=(not quick and i % 5 == 0)))
     ecases = explore_cases(ctx.rng, focus, quick)
